@@ -22,6 +22,8 @@ ASSUMPTIONS = ['IOPATH entries only for connected pins; at most one INTERCONNECT
 LIBNAMES = sorted(LIBS)
 VAL = st.one_of(st.none(), st.integers(0, 9999))
 TRIPLE = st.one_of(st.just([]), st.tuples(VAL, VAL, VAL).map(list))
+VALN = st.one_of(st.none(), st.integers(0, 9999), st.integers(0, 9999), st.integers(-999, -1))      # IOPATH values may be negative (legal SDF)
+TRIPLE_IO = st.one_of(st.just([]), st.tuples(VALN, VALN, VALN).map(list))
 
 
 @st.composite
@@ -32,7 +34,7 @@ def cases(draw, tier):
     nl = draw(S.netlists(max_g=14 if big else 7, max_pi=4, max_st=2, families=fams, styles=('cells',), need_d=True, latches=False, po_taps=2,
                          open_pins=False, min_g=1))
     nio = draw(st.integers(1, 12))
-    io = draw(st.lists(st.tuples(st.integers(0, 999), st.integers(0, 9), st.integers(0, 2), st.lists(TRIPLE, min_size=1, max_size=2),
+    io = draw(st.lists(st.tuples(st.integers(0, 999), st.integers(0, 9), st.integers(0, 2), st.lists(TRIPLE_IO, min_size=1, max_size=2),
                                  st.integers(0, 3)), min_size=1, max_size=nio))
     ic = draw(st.lists(st.tuples(st.integers(0, 999), st.integers(0, 9), st.lists(TRIPLE, min_size=1, max_size=2), st.integers(0, 2)),
                        min_size=0, max_size=8))
